@@ -86,6 +86,7 @@ J gen_hist(const std::string& prop, uint64_t run_seed, const std::string& tier) 
   knobs.set("be", c13 ? kn.below(3) : (kn.chance(1, 6) ? (uint64_t)BE_TAG : (uint64_t)BE_DIRECT));
   knobs.set("rm", kn.below(2));
   knobs.set("maxreq", (uint64_t)1 << 20);
+  knobs.set("fill", kn.below(4) == 0 ? kn.range(1, 2) : 0);   // fresh memory: mostly 0xAA, sometimes all-zero or all-ones
   plan.set("knobs", knobs);
   bool long_run = kn.chance(1, 12);
   unsigned nops = long_run ? (unsigned)kn.range(100, tier == "thorough" ? 2500 : 500) : (unsigned)kn.range(2, 14);
